@@ -112,7 +112,7 @@ func (e *Entry) Entry() *Entry {
 
 // IsDeletedOrExpired reports whether the entry is a tombstone or has passed its expiry.
 func (e *Entry) IsDeletedOrExpired() bool {
-	if e.Value == nil {
+	if e.Meta&BitDelete != 0 || e.Value == nil {
 		return true
 	}
 	if e.ExpiresAt == 0 {
